@@ -265,8 +265,8 @@ class Gen:
         b = lambda: r.choice([None, ("int", r.randint(0, 4)), ("neg", ("int", r.randint(1, 4))), self.atom_int()])
         a, e = b(), b()
         c = None
-        if self.on("slice.step", 0.4):
-            c = r.choice([("int", 2), ("neg", ("int", 1)), ("int", 1), ("neg", ("int", 2)), ("int", 3), self.atom_int()])
+        if self.on("slice.step", 0.5):
+            c = r.choice([("int", 2), ("neg", ("int", 1)), ("int", 1), ("neg", ("int", 2)), ("int", 3), ("neg", ("int", 1)), ("neg", ("int", 3)), self.atom_int()])
         for x in (a, e):
             if x is not None:
                 self.feat.add("slice.bound")
@@ -291,23 +291,44 @@ class Gen:
         opts = [
             ("list.lit", 4, lambda: ("list", [self.e_int(2) for _ in range(r.randint(0 if self.on("list.empty_literal", 0.2) else 1, 4))])),
             ("list.var", 2, lambda: (lambda vs: ("var", r.choice(vs)) if vs else None)(self.vars_of(LINT))),
-            ("list.slice", 1.5, lambda: (lambda vs: self.slice_of("list", ("var", r.choice(vs)), d) if vs else None)(self.vars_of(LINT))),
-            ("list.comp", 1.5, lambda: self.listcomp(d)),
+            ("list.slice", 2.5, lambda: (lambda vs: self.slice_of("list", ("var", r.choice(vs)), d) if vs else None)(self.vars_of(LINT))),
+            ("list.slice_of_literal", 1.5, lambda: self.slice_of("list", ("list", [("int", r.randint(0, 9)) for _ in range(r.randint(3, 6))]), d)),
+            ("list.comp", 3, lambda: self.listcomp(d)),
             ("list.sorted", 0.6, lambda: (lambda vs: ("builtin", "sorted", [("var", r.choice(vs))]) if vs else None)(self.vars_of(LINT))),
         ]
         return self.pick(opts)
 
     def listcomp(self, d):
+        """[body for c in src if cond]: the element and the filter are both non-trivial functions of the comprehension variable, chosen
+        so that filtering before or after the mapping, or evaluating them on a neighbouring element, changes the result."""
         r = self.r
         var = self.fresh("c")
         src = self.pick([
-            ("comp.over_range", 2, lambda: ("builtin", "range", [("int", r.randint(0, 5))])),
+            ("comp.over_range", 2, lambda: ("builtin", "range", [("int", r.randint(3, 8))])),
+            ("comp.over_range2", 1, lambda: ("builtin", "range", [("int", r.randint(-3, 2)), ("int", r.randint(3, 8))])),
+            ("comp.over_range3", 1, lambda: ("builtin", "range", [("int", r.randint(-3, 8)), ("int", r.randint(-3, 8)), r.choice([("int", 2), ("neg", ("int", 1)), ("neg", ("int", 2)), ("int", 3)])])),
             ("comp.over_list", 2, lambda: (lambda vs: ("var", r.choice(vs)) if vs else None)(self.vars_of(LINT))),
+            ("comp.over_list_literal", 1, lambda: ("list", [("int", r.randint(0, 9)) for _ in range(r.randint(2, 5))])),
         ])
         self.scopes.append({var: (INT, False)})
         try:
-            body = ("bin", r.choice(["+", "*", "-"]), ("var", var), self.atom_int())
-            cond = ("cmp", r.choice(["<", ">", "!="]), ("bin", "%", ("var", var), ("int", r.randint(1, 3))), ("int", r.randint(0, 1))) if self.on("comp.filter", 0.5) else None
+            v = ("var", var)
+            body = r.choice([
+                lambda: ("bin", "+", v, ("int", r.randint(1, 9))),
+                lambda: ("bin", "*", v, ("int", r.randint(2, 7))),
+                lambda: ("bin", "-", ("int", r.randint(0, 9)), v),
+                lambda: ("bin", "*", v, v),
+                lambda: ("bin", r.choice(["+", "*", "-"]), v, self.atom_int()),
+                lambda: v,
+            ])()
+            cond = None
+            if self.on("comp.filter", 0.6):
+                k = r.randint(2, 4)
+                cond = r.choice([
+                    lambda: ("cmp", r.choice(["==", "!="]), ("bin", "%", v, ("int", k)), ("int", r.randint(0, k - 1))),
+                    lambda: ("cmp", r.choice(["<", ">", "<=", ">=", "!="]), v, ("int", r.randint(1, 5))),
+                    lambda: ("cmp", r.choice(["<", ">"]), ("bin", "*", v, v), ("int", r.randint(2, 20))),
+                ])()
         finally:
             self.scopes.pop()
         return ("listcomp", body, var, src, cond)
@@ -409,6 +430,8 @@ class Gen:
         """A value handed over to a field/constructor: never a bare str variable (copy-vs-move of strings is undocumented)."""
         for _ in range(6):
             e = self.e_of(ty, d)
+            if ty == STR and e[0] == "field" and not self.on("own.str_field", 1.0):
+                continue  # `U(tag=v.tag)` moves the field out of v (known finding C02-str-ownership)
             if not (ty == STR and e[0] == "var"):
                 return e
         return ("str", self.r.choice(WORDS)) if ty == STR else e
